@@ -253,8 +253,10 @@ impl<'de> Deserialize<'de> for Phase {
             "." => Ok(Phase(None)),
             _ => {
                 let p = u8::from_str(&s)
-                    .map_err(|_| serde::de::Error::custom("Phase must be \".\", 0, 1, or 2"))?;
-                Ok(Phase(Self::validate(p)))
+                    .ok()
+                    .and_then(Self::validate)
+                    .ok_or_else(|| serde::de::Error::custom("Phase must be \".\", 0, 1, or 2"))?;
+                Ok(Phase(Some(p)))
             }
         }
     }
